@@ -125,9 +125,40 @@ type Level int
 type Small int8
 type Ratio float32
 
+// defined types WITH methods (fmt.Stringer, error, encoding.TextMarshaler): a value of such a type
+// still crosses the boundary by its underlying kind
+type DurS int64
+type MonthS int
+type TempS float64
+type NameS string
+type FlagS bool
+type ErrS string
+type CodeE int
+type TextM int
+type SmallS uint8
+
+func (d DurS) String() string   { return "dur:" + strconv.FormatInt(int64(d), 10) }
+func (m MonthS) String() string { return "month:" + strconv.Itoa(int(m)) }
+func (t TempS) String() string  { return strconv.FormatFloat(float64(t), 'f', 1, 64) + "°C" }
+func (n NameS) String() string  { return "<" + string(n) + ">" }
+func (f FlagS) String() string {
+	if f {
+		return "on"
+	}
+	return "off"
+}
+func (e ErrS) Error() string                 { return "err:" + string(e) }
+func (c CodeE) Error() string                { return "code:" + strconv.Itoa(int(c)) }
+func (t TextM) MarshalText() ([]byte, error) { return []byte("text:" + strconv.Itoa(int(t))), nil }
+func (s SmallS) String() string              { return "small:" + strconv.Itoa(int(s)) }
+
 var kinds = map[string]reflect.Type{
 	"Name": reflect.TypeOf(Name("")), "Flag": reflect.TypeOf(Flag(false)), "Celsius": reflect.TypeOf(Celsius(0)),
 	"Level": reflect.TypeOf(Level(0)), "Small": reflect.TypeOf(Small(0)), "Ratio": reflect.TypeOf(Ratio(0)),
+	"DurS": reflect.TypeOf(DurS(0)), "MonthS": reflect.TypeOf(MonthS(0)), "TempS": reflect.TypeOf(TempS(0)),
+	"NameS": reflect.TypeOf(NameS("")), "FlagS": reflect.TypeOf(FlagS(false)), "ErrS": reflect.TypeOf(ErrS("")),
+	"CodeE": reflect.TypeOf(CodeE(0)), "TextM": reflect.TypeOf(TextM(0)), "SmallS": reflect.TypeOf(SmallS(0)),
+	"Duration": reflect.TypeOf(time.Duration(0)), "Month": reflect.TypeOf(time.Month(0)),
 	"string": reflect.TypeOf(""), "bool": reflect.TypeOf(true),
 	"int": reflect.TypeOf(int(0)), "int8": reflect.TypeOf(int8(0)), "int16": reflect.TypeOf(int16(0)),
 	"int32": reflect.TypeOf(int32(0)), "int64": reflect.TypeOf(int64(0)),
@@ -328,6 +359,19 @@ func (t *T) Mix(a int, b float64, c string) string {
 	return build(kinds["string"], tret).Interface().(string)
 }
 func (t *T) None() { rec() }
+
+// methods whose parameter / result is a defined type with a String() method
+func (t *T) RetDur(a int64) DurS { rec(a); return build(kinds["DurS"], tret).Interface().(DurS) }
+func (t *T) RetMonth(a int) time.Month {
+	rec(a)
+	return build(kinds["Month"], tret).Interface().(time.Month)
+}
+func (t *T) RetNameS(a string) NameS { rec(a); return build(kinds["NameS"], tret).Interface().(NameS) }
+func (t *T) RetTempS(a float64) TempS {
+	rec(a)
+	return build(kinds["TempS"], tret).Interface().(TempS)
+}
+func (t *T) TakeDur(a DurS) int64 { rec(a); return build(kinds["int64"], tret).Interface().(int64) }
 
 // methods with two and three parameters of different kinds (position matrix on the method path)
 func (t *T) IS(a int, b string) string {
